@@ -62,6 +62,8 @@ class NumValue(QuantitativeValue):
 
         @classmethod
         def parse(cls, tcls, v):
+            if isinstance(v, bool):  # NOTE: bool is a subclass of int
+                raise TypeError(f"Value '{v}' must be a number, not a boolean!")
             if isinstance(v, (int, float)):
                 if cls.require_unit:
                     raise ValueError(f"Value '{v}' must have a unit!")
